@@ -95,8 +95,12 @@ def corpus_sources():
                 mode = fn.split("_", 1)[0]
                 if mode not in ("vcl", "snippet", "auto", "expr"):
                     mode = "auto"
-                out.append((mode, open(os.path.join(d, fn), "rb").read(), "corpus/" + fn, None, False,
-                            fn.split("_", 2)[1] == "ok" if fn.count("_") >= 2 else False))
+                verdict = fn.split("_", 2)[1] if fn.count("_") >= 2 else ""
+                # <mode>_ok_*: must parse; <mode>_err_*: must be rejected (intended result "ERR"; not in expr mode,
+                # where an expression prefix parses and the rest is reported as unread)
+                must_err = verdict == "err" and mode != "expr"
+                out.append((mode, open(os.path.join(d, fn), "rb").read(), "corpus/" + fn,
+                            "ERR" if must_err else None, must_err, verdict == "ok"))
     return out
 
 
@@ -133,6 +137,151 @@ def mutate_tokens(rng, toks, pool):
     return t[:i] + t[j:], "delete-run"
 
 
+# ---------------------------------------------------------------- comments (Parser.ReadPeek, Model/ParseComments.v)
+COMMENT_SEPS = [" /* c%d */ ", " // c%d\n", "\n# c%d\n", "\n\n\n/* c%d */\n\n", " /* c%d */ /* d */ ", "\n// c%d\n// e\n",
+                "\n\n/* c%d */ ", " /* c%d */\n\n\n"]
+
+
+COMMENT_DIRECTED = [
+    'sub vcl_recv {\n  // a\n  set req.http.X = "a" /* c1 */ + /* c2 */ "b"; // tr\n\n\n  # lead2\n  esi;\n}\n// end\n',
+    'pragma optional_param /* in */ geoip_opt_in true;\nsub vcl_recv { }\n',
+    'pragma optional_param x\n// never closed',
+    'set req.http.A = "x"; // t1\n// final\n',
+    'sub vcl_recv {\n if (/* a */ req.http.A /* b */ ) /* c */ { /* d */ esi; /* e */ } /* f */ else /* g */ { }\n /* h */ }\n',
+    'sub vcl_recv {\n call /* x */ foo /* y */ ; \n return /* r1 */ ( /* r2 */ lookup /* r3 */ ) /* r4 */ ; /* r5 */\n }\n',
+    'acl a { /* 1 */ "1.2.3.4" /* 2 */ / /* 3 */ 8 /* 4 */ ; /* 5 */ }\ntable t { /*6*/ "a" /*7*/ : /*8*/ "b" /*9*/ , /*10*/ }\n',
+    'sub vcl_recv {\n switch /*1*/ ( /*2*/ req.http.A /*3*/ ) /*4*/ { /*5*/ case /*6*/ "a" /*7*/ : /*8*/ esi; /*9*/ break /*10*/ ; /*11*/ default /*12*/ : /*13*/ break; /*14*/ } /*15*/\n}\n',
+    'sub vcl_recv {\n set req.http.A = foo( /*1*/ "a" /*2*/ , /*3*/ "b" /*4*/ ) /*5*/ ; \n set req.http.B = ! /*6*/ req.http.C /*7*/ ; set /*8*/ req.http.D /*9*/ = /*10*/ ( /*11*/ "a" /*12*/ ) /*13*/ ; }\n',
+    'sub f { /* c */ g(x); }',
+    '\n\n\n# only a comment\n\n',
+    'sub f {\n\n\n\n  esi;\n\n  // x\n\n\n  esi; # C!\n  #FASTLY recv\n\n  esi;\n}\n',
+    'sub f { { { { /* deep */ } } /* up */ } }',
+    '} } /* negative nest */ { ',
+    'sub f(STRING p /* c */ , INTEGER q) { }',
+    'table u STRING { "a": "b",\n/* c7 */\n{"c"}: d }',
+    'sub f { set req.http.A = g(x /* c */ , y); g(x) /* c */ ; call g /* c */ (); }',
+]
+
+
+def commentize(rng, text, p=0.25):
+    """put comments (and line feeds) into the white space of a source text, outside string literals"""
+    out, i, n, k = [], 0, len(text), 0
+    while i < n:
+        c = text[i]
+        if c == '"':
+            j = text.find('"', i + 1)
+            j = n if j < 0 else j + 1
+            out.append(text[i:j]); i = j
+        elif c == "{" and re.match(r'\{[A-Za-z0-9_]*"', text[i:i + 40]):
+            m = re.match(r'\{([A-Za-z0-9_]*)"', text[i:i + 40])
+            j = text.find('"' + m.group(1) + "}", i + len(m.group(0)))
+            j = n if j < 0 else j + len(m.group(1)) + 2
+            out.append(text[i:j]); i = j
+        elif c == "#" or text.startswith("//", i):
+            j = text.find("\n", i)
+            j = n if j < 0 else j + 1
+            out.append(text[i:j]); i = j
+        elif text.startswith("/*", i):
+            j = text.find("*/", i + 2)
+            j = n if j < 0 else j + 2
+            out.append(text[i:j]); i = j
+        elif c in " \t\n":
+            j = i
+            while j < n and text[j] in " \t\n":
+                j += 1
+            if rng.random() < p:
+                k += 1
+                out.append(rng.choice(COMMENT_SEPS) % k)
+            else:
+                out.append(text[i:j])
+            i = j
+        else:
+            out.append(c); i += 1
+    return "".join(out)
+
+
+OPERAND_TYPES = {"STRING", "INT", "FLOAT", "RTIME", "TRUE", "FALSE", "PERCENT", "CLOSE_LONG_STRING", "IDENT"}
+
+
+def do_comments(ctx, model, sources, st):
+    """the decorated stream of the real parser (Leading comments with PrefixedLineFeed / PreviousEmptyLines, Nest,
+    PreviousEmptyLines of every token that becomes curToken) must be the one of Model/ParseComments.v on the raw
+    token stream of the real lexer; then the census of the real tree: every comment of the decorated stream in
+    exactly one Leading / Infix / Trailing list of the tree"""
+    impl = [os.path.join(V.BUILD, "implrun"), "parsecomments"]
+    irep = V.run_batch(impl, [s.hex() for _, s in sources], hang_s=10)
+    keep, mreq = [], []
+    for (label, s), rep in zip(sources, irep):
+        if rep is None or rep.count(" | ") != 2 or rep.startswith(("hang", "died", "panic", "bad", "skipped")):
+            ctx.violation("the parser %s while its comment placement is read (%s)" % ((rep or "gives no reply").split(" ")[0], label),
+                          {"source_hex": s.hex()[:4000], "reply": (rep or "")[:400]}, {"kind": "impl-" + (rep or "none").split(" ")[0]})
+            continue
+        raw, dec, tree = rep.split(" | ")
+        keep.append((label, s, raw, dec, tree))
+        mreq.append("comments %s -" % raw)
+    mrep = V.run_batch([model], mreq, hang_s=120, mem_kb=8_000_000)
+    for (label, s, raw, dec, tree), mr in zip(keep, mrep):
+        st["c_src"] += 1
+        if dec != mr:
+            ctx.violation("comment attachment / Nest / PreviousEmptyLines of the token stream differ between Parser.ReadPeek and "
+                          "Model/ParseComments.v on %s" % label,
+                          {"source": s.decode("utf-8", "replace")[:1500], "source_hex": s.hex()[:4000], "raw_tokens": raw[:3000],
+                           "impl": dec[:3000], "model": (mr or "")[:3000]})
+            continue
+        st["c_agree"] += 1
+        rt = [t.split(":", 1)[0] for t in raw.split(";")]
+        dl = [d.split(":") for d in dec.split(";")]
+        ncom = sum(1 for d in dl for c in d[4].split(",") if c)
+        st["c_comments"] += ncom
+        st["c_maxnest"] = max(st["c_maxnest"], max(int(d[2]) for d in dl))
+        st["c_pel"] += sum(1 for d in dl if d[3] != "0") + sum(1 for d in dl for c in d[4].split(",") if c and c.split(".")[2] != "0")
+        # source-level reading of "exactly once": the attached comments are all COMMENT tokens of the raw stream
+        allc = [str(i) for i, t in enumerate(rt) if t == "COMMENT"]
+        att = [c.split(".")[0] for d in dl for c in d[4].split(",") if c]
+        if att != allc:
+            st["c_stream_lost"] += 1
+            ctx.violation("a comment token of the source is attached to no token by Parser.ReadPeek (%s)" % label,
+                          {"source": s.decode("utf-8", "replace")[:600], "source_hex": s.hex()[:4000],
+                           "lost": [x for x in allc if x not in att][:20]},
+                          {"kind": "comment-not-attached", "inside": "pragma" if "PRAGMA" in rt else "other"})
+        if tree == "-":
+            continue
+        st["c_trees"] += 1
+        items = [x for x in tree.split(" ", 1)[1].split(",") if x]
+        where = {}
+        for x in items:
+            cid, hold = x[1:].split("@")
+            where.setdefault(cid, []).append((x[0], hold))
+        for cid in where:
+            if cid not in att:
+                ctx.violation("the tree carries a comment that Parser.ReadPeek attached to no token (%s)" % label,
+                              {"source": s.decode("utf-8", "replace")[:600], "source_hex": s.hex()[:4000], "comment_index": cid})
+        st["c_in_tree"] += len(where)
+        for i, d in enumerate(dl):
+            for c in d[4].split(","):
+                if not c:
+                    continue
+                cid = c.split(".")[0]
+                prev = dl[i - 1][0] if i else "^"
+                after = "operand" if prev in OPERAND_TYPES else prev
+                if cid not in where:
+                    st["c_dropped"] += 1
+                    key = "%s after %s" % (d[0], after)
+                    st["c_drop_sites"][key] = st["c_drop_sites"].get(key, 0) + 1
+                    ctx.violation("a comment of the source is in no Leading / Infix / Trailing list of the tree (%s): comment before %s, after %s"
+                                  % (label, d[0], prev),
+                                  {"source": s.decode("utf-8", "replace")[:800], "source_hex": s.hex()[:4000],
+                                   "comment": bytes.fromhex(raw.split(";")[int(cid)].split(":")[1]).decode("utf-8", "replace")},
+                                  {"kind": "comment-dropped", "holder": d[0], "after": after})
+                elif len(where[cid]) > 1:
+                    st["c_dup"] += 1
+                    hs = sorted(set(f + "@" + (rt[int(h)] if h.isdigit() else h) for f, h in where[cid]))
+                    ctx.violation("a comment of the source is in %d lists of the tree (%s): %s" % (len(where[cid]), label, where[cid]),
+                                  {"source": s.decode("utf-8", "replace")[:800], "source_hex": s.hex()[:4000],
+                                   "comment": bytes.fromhex(raw.split(";")[int(cid)].split(":")[1]).decode("utf-8", "replace")},
+                                  {"kind": "comment-duplicated", "lists": len(where[cid]), "where": ",".join(hs)})
+
+
 def run(ctx):
     rng = ctx.rng
     thorough = ctx.thorough()
@@ -147,7 +296,9 @@ def run(ctx):
         "translator harness/cmd/trans/parse_tables.go (token constants, keywords, precedences, LOWEST..CALL, prefix/infix/postfix registrations with the explicit flag, assignmentOperators, isDeclarationToken -> Gen/TokenTypes.v, Gen/ParserTables.v)",
         "harness/cmd/implrun/parse.go (projection of the Go AST; the significant token stream = real lexer re-run and filtered as Parser.ReadPeek does; slice Tokenizer for the malformed stream; error class from the message prefix)",
         "strconv.ParseFloat is an oracle of the model (accept / reject of the literal handed to it, answered by the Go side); the float VALUE is not modelled",
-        "modelled not verified: Model/Parse*.v is a hand transcription of parser/*.go over token lists (comments, positions, Meta not modelled), tied by the differential run below",
+        "translator harness/cmd/trans/parse_dispatch.go (switch statements of ParseStatement / ParseSnippetVCL / Parse -> Gen/ParserDispatch.v)",
+        "harness/cmd/implrun/parse_comments.go (raw lexer tokens, the metas Parser.CurToken() shows, reflection walk over every ast.Meta of the tree)",
+        "modelled not verified: Model/Parse*.v is a hand transcription of parser/*.go over token lists (Model/ParseComments.v: ReadPeek over the raw stream; positions, Meta.ID and the tree-level redistribution of comments not modelled), tied by the differential runs below",
         "gen/parsegen.py: the intended tree is computed from a hand copy of the documented precedence table",
     ]
 
@@ -300,6 +451,19 @@ def run(ctx):
                                   {"mode": m, "source": s.decode("utf-8", "replace")[:600], "source_hex": s.hex()[:4000],
                                    "intended": (intent or "")[:2000], "impl": out[:2000], "model": (mr or "")[:2000]})
 
+    # ------------------------------------------------------------- phase C sources: commented programs
+    csrc = []
+    gen_c = [c for c in cases if c[0] != "expr" and c[2].startswith(("gen-", "nested-"))]
+    n_c = 6000 if thorough else 800
+    for c in (rng.sample(gen_c, n_c) if len(gen_c) > n_c else gen_c):     # every generator family, commented
+        csrc.append((c[2] + "+comments", commentize(rng, c[1].decode("utf-8", "replace"), rng.choice([0.1, 0.25, 0.5])).encode()))
+    for c in cases:
+        if c[0] != "expr" and not c[2].startswith(("gen-", "nested-")):
+            csrc.append((c[2], c[1]))
+            if c[2] == "directed":
+                csrc.append((c[2] + "+comments", commentize(rng, c[1].decode("utf-8", "replace"), 0.5).encode()))
+    for src in COMMENT_DIRECTED:
+        csrc.append(("comment-directed", src.encode()))
     n_cases = len(cases)
     n_intent = sum(1 for c in cases if c[4])
     n_grammar = sum(1 for c in cases if c[5] and not c[4])
@@ -366,6 +530,14 @@ def run(ctx):
             do_mutations(k)
             done += k
 
+    # ------------------------------------------------------------- phase C: comment attachment
+    st.update({"c_src": 0, "c_agree": 0, "c_comments": 0, "c_maxnest": 0, "c_pel": 0, "c_trees": 0, "c_in_tree": 0,
+               "c_dropped": 0, "c_dup": 0, "c_stream_lost": 0, "c_drop_sites": {}})
+    for i in range(0, len(csrc), 5000):
+        do_comments(ctx, model, csrc[i:i + 5000], st)
+        if len(ctx.violations) > 50:
+            break
+
     if not proved and not ctx.violations:
         ctx.violation("proof obligation of C02 no longer checks: " + (ctx.broken or "Props/C02.v"),
                       {"no_failing_input": True, "broken": ctx.broken,
@@ -384,6 +556,12 @@ def run(ctx):
         "seconds_in_go_parser": round(st["impl_s"], 1), "seconds_in_extracted_model": round(st["model_s"], 1),
         "operator_pair_cases": n_pairs, "operator_pairs_exhaustive": True,
         "expression_depth_histogram": dict(sorted(depth_hist.items())),
+        "comment_sources": st["c_src"], "comment_streams_agree": st["c_agree"], "comments_in_those_sources": st["c_comments"],
+        "comment_max_nest": st["c_maxnest"], "comment_nonzero_empty_line_counts": st["c_pel"],
+        "comment_trees_walked": st["c_trees"], "comments_found_once_in_tree": st["c_in_tree"] - st["c_dup"],
+        "comments_dropped_by_tree(known)": st["c_dropped"], "comments_duplicated_in_tree(known)": st["c_dup"],
+        "comment_drop_sites": dict(sorted(st["c_drop_sites"].items())),
+        "comments_lost_before_the_tree(known: pragma)": st["c_stream_lost"],
         "malformed_streams": st["n_mal"], "malformed_agree": st["b_agree"], "malformed_outcomes": b_out,
         "mutation_kinds": mk, "error_classes": dict(sorted(err_kinds.items())),
         "node_kinds": dict(sorted(node_kinds.items(), key=lambda kv: -kv[1])[:60]),
